@@ -270,6 +270,8 @@ convert(struct func *f, struct type *dst, struct type *src, struct value *l)
 		return NULL;
 	if (!(src->prop & PROPREAL) || !(dst->prop & PROPREAL))
 		fatal("internal error; unsupported conversion");
+	if (src->kind == TYPELDOUBLE || dst->kind == TYPELDOUBLE)
+		fatal("long double is not yet supported");
 	if (dst->kind == TYPEBOOL) {
 		class = 'w';
 		if (src->prop & PROPINT) {
@@ -725,6 +727,8 @@ funcexpr(struct func *f, struct expr *e)
 		if (t->prop & PROPINT || t->kind == TYPEPOINTER)
 			return mkintconst(e->u.constant.u);
 		assert(t->prop & PROPFLOAT);
+		if (t->kind == TYPELDOUBLE)
+			fatal("long double is not yet supported");
 		return mkfltconst(t->size == 4 ? VALUE_FLTCONST : VALUE_DBLCONST, e->u.constant.f);
 	case EXPRBITFIELD:
 	case EXPRCOMPOUND:
